@@ -153,7 +153,7 @@ def execute(a):
     s.next_num_in = 1
     rec = {"id": rid, "tree": bytesify(tree), "mode": mode, "type": mtype, "sender": list(b"SND"), "target": list(b"TGT"),
            "nout_before": nout, "carried": 0, "extra_hdr": 0, "enc_exc": "none", "bytes": [], "dec_msg": False, "dec_body": [],
-           "dec_type": "", "consumed": -1, "raw_equal": False, "hdr49": [], "hdr56": [], "hdr34": -1, "nout_after": nout}
+           "dec_type": "", "consumed": -1, "raw_equal": False, "hdr49": [], "hdr56": [], "hdr34": -1, "nout_after": nout, "followed_ok": True}
     try:
         m = to_msg(tree, mtype)
         raw_flag = False
@@ -195,6 +195,22 @@ def execute(a):
                 rec["hdr34"] = -1
     except Exception as ex:
         rec["dec_exc"] = type(ex).__name__
+    # the same frame with more traffic behind it in the buffer: same message, exactly this frame consumed
+    try:
+        s2 = FIXSession(1, "TGT", "SND")
+        s2.next_num_out = 77
+        follow = codec.encode(FIXMessage(FMsg.HEARTBEAT), s2).encode("latin-1")
+        for tail in (follow, follow[:11], b"8=FIX"):
+            dm2, n2, raw2 = codec.decode(b + tail)
+            ok = dm2 is not None and int(n2) == len(b) and raw2 == b and \
+                [f for f in from_container(dm2) if str(f["tag"]) not in HEADER] == rec["dec_body"]
+            if not ok:
+                rec["followed_ok"] = False
+                rec["followed_detail"] = {"tail": len(tail), "consumed": int(n2), "len": len(b), "msg": dm2 is not None}
+                break
+    except Exception as ex:
+        rec["followed_ok"] = False
+        rec["followed_detail"] = {"exc": type(ex).__name__}
     return rec
 
 
